@@ -36,6 +36,12 @@ EXTERNAL_MAY_PANIC = {
     "melstructs::CoinValue::from_millions": "overflow",
     "<T as std::convert::TryInto<U>>::try_into": None,   # returns Result: not a panic
 }
+# |MIN| is not representable: abs/neg of a signed integer overflow on MIN (panic with overflow checks, MIN without)
+for _t in ("i8", "i16", "i32", "i64", "i128", "isize"):
+    EXTERNAL_MAY_PANIC["core::num::<impl %s>::abs" % _t] = "self == %s::MIN" % _t
+    EXTERNAL_MAY_PANIC["core::num::<impl %s>::pow" % _t] = "overflow"
+INT_W = {"u8": 8, "u16": 16, "u32": 32, "u64": 64, "usize": 64, "u128": 128}
+SIGNED_W = {"i8": 8, "i16": 16, "i32": 32, "i64": 64, "isize": 64, "i128": 128}
 STD_PANICKING = ("Option::unwrap", "Option::expect", "Result::unwrap", "Result::expect", "Result::unwrap_err", "Result::expect_err")
 INDEXING = ("Index<I>>::index", "IndexMut<I>>::index_mut", "ops::Index<I> for [T]>::index", "ops::IndexMut<I> for [T]>::index_mut")
 
@@ -91,7 +97,7 @@ def inventory(prog, bodies):
                 e = b.rec_call(t, bi)
                 arg = e[2][0] if e[0] == "call" and e[2] else e
                 sites.append(Site(b, bi, "unwrap", n.split("::")[-1], [arg], e, t["exp"]))
-            elif any(s in n for s in INDEXING):
+            elif any(s in n for s in INDEXING) or (("ops::Index<" in n or "ops::IndexMut<" in n) and n.split("::")[-1] in ("index", "index_mut")):
                 e = b.rec_call(t, bi)
                 sites.append(Site(b, bi, "index", mir.short(n).split(">::")[-1], list(e[2]) if e[0] == "call" else [e], e, t["exp"]))
             elif n.startswith("core::panicking::") or n.startswith("std::rt::begin_panic") or "panic_fmt" in n or "assert_failed" in n or "unreachable_display" in n:
@@ -201,6 +207,13 @@ def auto_discharge(prog, site):
             g = _guarded_sub(b, site.bb, ops[0], ops[1])
             if g:
                 return ("D6", g)
+        if nm.startswith("core::num::<impl i") and nm.endswith(">::abs") and len(ops) == 1:
+            ty = nm[len("core::num::<impl "):-len(">::abs")]
+            o = ops[0]
+            if o[0] == "cast" and o[2] in SIGNED_W and SIGNED_W[o[2]] < SIGNED_W.get(ty, 0):
+                return ("D4", "operand widened from %s: never %s::MIN" % (o[2], ty))
+            if o[0] == "cast" and o[2] in INT_W and INT_W[o[2]] < SIGNED_W.get(ty, 0):
+                return ("D4", "operand widened from %s: never negative" % o[2])
         if "as std::ops::Div" in nm and len(ops) == 2 and _const(ops[1]) not in (None, 0):
             return ("D1", "division by the non-zero constant %s" % sig(ops[1]))
     if site.kind == "extern" and site.what == "new" and site.expr is not None and site.expr[1].endswith("PoolKey::new"):
@@ -208,9 +221,6 @@ def auto_discharge(prog, site):
         if len(a) == 2 and all(x.startswith("Denom::") and x.endswith("{}") for x in a) and a[0] != a[1]:
             return ("D1", "PoolKey::new of two distinct constant denominations")
     return None
-
-
-INT_W = {"u8": 8, "u16": 16, "u32": 32, "u64": 64, "usize": 64, "u128": 128}
 
 
 def _width_bound(e):
@@ -339,6 +349,19 @@ def _guarded_index(b, site):
         return "range end is min(.., len)"
     if "RangeFrom{start:" in si and "Iterator::count(Iterator::take_while(" in si:
         return "range start counts a prefix of the same array"
+    # fixed array sliced by ..end: unreachable once `end > K` (K ≤ N) is forced true
+    n_arr = _array_len(b, base)
+    if n_arr is not None and idx[0] == "agg" and "RangeTo" in str(idx[1]):
+        end = dict(idx[3]).get("end") if len(idx) > 3 else None
+        if end is not None:
+            raw = end[1] if end[0] == "cast" else end
+            for ae, canon, abi in q.cmp_atoms(b):
+                op, L, R = q.as_cmp(ae)
+                for (x, k, o) in ((L, R, op), (R, L, q.SWAP[op])):
+                    if mir.strip(x) in (mir.strip(raw), mir.strip(end)) and _const(k) is not None and o in ("Gt", "Ge"):
+                        bound = _const(k) if o == "Gt" else _const(k) - 1
+                        if bound <= n_arr and site.bb not in q.force(b, {ae: 1}).reach:
+                            return "slice ..end of a [_; %d] unreachable when end > %d" % (n_arr, bound)
     ci = _const(idx)
     for (op, L, R), truth in _atoms_dominating(b, site.bb):
         if R is None:
@@ -353,6 +376,22 @@ def _guarded_index(b, site):
                 return "dominated by len %s %d" % (o, _const(R))
             if sr in lens and _const(L) is not None and ((o == "Le" and _const(L) > ci) or (o == "Lt" and _const(L) >= ci) or (o == "Eq" and _const(L) > ci)):
                 return "dominated by %d %s len" % (_const(L), o)
+    return None
+
+
+def _array_len(b, base):
+    """N if `base` is a local of type [T; N] (or a reference to one)"""
+    import re
+    x = base
+    while x[0] in ("ref", "deref", "mutated") and len(x) > 1 and isinstance(x[1], tuple):
+        x = x[1]
+    if x[0] != "var":
+        return None
+    for l, nm in b.local_name.items():
+        if nm == x[1]:
+            m = re.match(r"^&?(mut )?\[[^;\]]+; (\d+)\]$", b.locals[l]["ty"])
+            if m:
+                return int(m.group(2))
     return None
 
 
